@@ -350,6 +350,17 @@ Fixpoint enames (e : texpr) : list string :=
 Definition is_generic_name (n : string) : bool :=
   match form_kind n with Some _ => true | None => false end.
 
+(* the arguments of Tuple[...] / tuple[...]: types, optionally followed by `...` *)
+Section TupleArgs.
+  Variable wf : texpr -> bool.
+  Fixpoint tuple_args_ok (l : list texpr) : bool :=
+    match l with
+    | [] => true
+    | [EEllipsis] => true
+    | x :: r => wf x && tuple_args_ok r
+    end.
+End TupleArgs.
+
 (* an expression usable as a type argument *)
 Fixpoint wf_expr (e : texpr) : bool :=
   match e with
@@ -372,12 +383,7 @@ Fixpoint wf_expr (e : texpr) : bool :=
       | Some KTuple =>
           match s with
           | ETuple l =>
-              (fix go (l : list texpr) : bool :=
-                 match l with
-                 | [] => true
-                 | [EEllipsis] => true
-                 | x :: r => wf_expr x && go r
-                 end) l
+              tuple_args_ok wf_expr l
           | x => wf_expr x
           end
       | Some KCallable =>
@@ -390,12 +396,7 @@ Fixpoint wf_expr (e : texpr) : bool :=
           mem n subscriptable_builtins &&
           match s with
           | ETuple l =>
-              (fix go (l : list texpr) : bool :=
-                 match l with
-                 | [] => true
-                 | [EEllipsis] => true
-                 | x :: r => wf_expr x && go r
-                 end) l
+              tuple_args_ok wf_expr l
           | x => wf_expr x
           end
       end
